@@ -84,22 +84,27 @@ pub fn gen(rng: &mut Rng, tier: Tier, out: &mut Vec<String>) {
     } }
     out.push("vec_hist q 0 4 pop sum product find 1".to_string());
     // Matrix: all pairs of shapes (r,c) x (r2,c2) up to 3, and every row/column argument up to 6
-    let ms = 3usize;
+    // (quick: all pairs up to 3 and a random sample of the pairs up to 6; thorough: all pairs up to 6, as the property quantifies)
+    let ms = if tier == Tier::Quick { 3usize } else { 6usize };
     for r in 0..=ms { for c in 0..=ms { for r2 in 0..=ms { for c2 in 0..=ms {
         out.push(format!("mat_hist q {} 4 add {} sub {} mul {} mulv {}", gen_mat_str::<Q>(rng, r, c, 10, 0), gen_mat_str::<Q>(rng, r2, c2, 10, 0), gen_mat_str::<Q>(rng, r2, c2, 10, 0), gen_mat_str::<Q>(rng, r2, c2, 10, 0), gen_vec_str::<Q>(rng, c2, 10, 0)));
     } } } }
+    if tier == Tier::Quick { for _ in 0..120 { let (r, c, r2, c2) = (rng.below(7), rng.below(7), rng.below(7), rng.below(7));
+        out.push(format!("mat_hist q {} 4 add {} sub {} mul {} mulv {}", gen_mat_str::<Q>(rng, r, c, 10, 0), gen_mat_str::<Q>(rng, r2, c2, 10, 0), gen_mat_str::<Q>(rng, r2, c2, 10, 0), gen_mat_str::<Q>(rng, r2, c2, 10, 0), gen_vec_str::<Q>(rng, c2, 10, 0))); } }
     for r in 0..=mx { for c in 0..=mx { for k in 0..=mx {
         if (r + c + k) % 2 == 0 || tier == Tier::Thorough {
         out.push(format!("mat_hist q {} 9 getrow {} getcol {} setrow {} {} setcol {} {} swaprows {} {} fillrow {} 1 fillcol {} 1 delrow {} clonemut 5", gen_mat_str::<Q>(rng, r, c, 10, 0), k, k, k, gen_vec_str::<Q>(rng, c, 10, 0), k, gen_vec_str::<Q>(rng, r, 10, 0), k, r.saturating_sub(1), k, k, k));
         out.push(format!("mat_hist q {} 2 setrow 0 {} setcol 0 {}", gen_mat_str::<Q>(rng, r, c, 10, 0), gen_vec_str::<Q>(rng, k, 10, 0), gen_vec_str::<Q>(rng, k, 10, 0))); }
     } } }
     // solver entry points
-    for r in 0..=4usize { for c in 0..=4usize { for bl in 0..=4usize { if r != c || bl != r {
+    let sm = if tier == Tier::Quick { 4usize } else { 6usize };
+    for r in 0..=sm { for c in 0..=sm { for bl in 0..=sm { if r != c || bl != r {
         out.push(format!("solve q {} {}", gen_mat_str::<Q>(rng, r, c, 10, 0), gen_vec_str::<Q>(rng, bl, 10, 0)));
         if bl == 0 { out.push(format!("detinv q {}", gen_mat_str::<Q>(rng, r, c, 10, 0))); }
     } } } }
     // Banded / Tridiagonal
-    for n in 1..=4usize { for m1 in 0..n.min(3) { for m2 in 0..n.min(3) { for n2 in 1..=4usize { for p1 in 0..n2.min(2) { for p2 in 0..n2.min(2) {
+    let bm = if tier == Tier::Quick { 4usize } else { 6usize };
+    for n in 1..=bm { for m1 in 0..n.min(3) { for m2 in 0..n.min(3) { for n2 in 1..=bm { for p1 in 0..n2.min(3) { for p2 in 0..n2.min(3) {
         if tier == Tier::Quick && (n + m1 + m2 + n2 + p1 + p2) % 3 != 0 { continue; }
         out.push(format!("band_mis {} {} {} 2 {} {} {} 3 {} {}", n, m1, m2, n2, p1, p2, gen_vec_str::<Q>(rng, n2, 0, 0), rng.range(-(m1 as i64) - 2, m2 as i64 + 2)));
     } } } } } }
